@@ -37,6 +37,7 @@ def run(ctx):
     r6_batch_unbatch(ctx)
     r7_sort_keys(ctx)
     r8_cache_per_environment(ctx)
+    r9_reservoir_zero_uniform(ctx)
     c04.r6_replay_buffer(ctx, rule="C09.R1")
 
 
@@ -402,6 +403,34 @@ def r8_cache_per_environment(ctx, rule="C09.R8"):
                                     "environment by Environments.cache()/chunk()/dense(), never one instance shared through Environments.filter")
 
 
+def r9_reservoir_zero_uniform(ctx, rule="C09.R9"):
+    ctx.rule(rule, "Reservoir is defined for every seed: the uniforms of its skip-ahead computation (in [0,1), 0.0 included) never reach log() or a power base as 0 -- "
+                   "each such use is written `(u or <positive constant>)` (otherwise log(0) / log base 1 raise for seeds whose stream contains 0.0)")
+    fn = ctx.fn(PF, "Reservoir.filter")
+    loops = [l for l in ast.walk(fn) if isinstance(l, ast.For) and isinstance(l.target, ast.Tuple) and "randoms" in unparse(l.iter)]
+    if not loops:
+        ctx.ob(rule, PF, "Reservoir.filter", fn, "the skip-ahead loop over uniforms was located", None, stmt="skip-ahead loop")
+        return
+    n = 0
+    for lp in loops:
+        us = {t.id for t in lp.target.elts if isinstance(t, ast.Name)}
+        for x in ast.walk(lp):
+            uses = []
+            if isinstance(x, ast.Call) and call_name(x) in ("log", "math.log") and x.args:
+                uses.append(x.args[0])
+            if isinstance(x, ast.BinOp) and isinstance(x.op, ast.Pow):
+                uses.append(x.left)
+            for e in uses:
+                names = {y.id for y in ast.walk(e) if isinstance(y, ast.Name)} & us
+                if not names:
+                    continue
+                n += 1
+                guarded = isinstance(e, ast.BoolOp) and isinstance(e.op, ast.Or) and isinstance(e.values[0], ast.Name) and e.values[0].id in us and len(e.values) == 2 \
+                    and not any(isinstance(y, ast.Name) for y in ast.walk(e.values[1]))
+                ctx.ob(rule, PF, "Reservoir.filter", x, f"the uniform `{sorted(names)[0]}` cannot reach this log / power base as 0", guarded, detail={"argument": unparse(e)})
+    ctx.ob(rule, PF, "Reservoir.filter", fn, "the logarithm / power uses of the uniforms were located", None if n < 2 else True, stmt="uses located")
+
+
 def r7_sort_keys(ctx):
     ctx.rule("C09.R7", "Sort keeps the caller's key order: the keys are stored as given (flattened, not sorted/de-duplicated) and the sort key tuple "
                        "is built by iterating them in that order")
@@ -421,6 +450,7 @@ def r7_sort_keys(ctx):
 
 
 CONTROLS = [
+    ("Reservoir takes log of a uniform that may be 0", PF, M.replace_expr("Reservoir.filter", "log(r2 or 2 ** (-31), 1 - W)", "log(r2, 1 - W)"), "C09.R9"),
     ("one Cache object for all environments", "coba/environments/core.py", M.replace_expr("Environments.cache", "Environments([Pipes.join(env, Cache(25)) for env in self._envs])", "self.filter(Cache(25))"), "C09.R8"),
     ("Sort de-duplicates its keys", EF, M.replace_expr("Sort.__init__", "list(pipes.Flatten().filter([list(keys)]))[0]", "sorted(set(list(pipes.Flatten().filter([list(keys)]))[0]), key=str)"), "C09.R7"),
     ("Riffle keeps its generator", EF, M.chain(M.insert_after("Riffle.__init__", M.simple_has("self._seed = seed"), "self._rng = CobaRandom(seed)"),
